@@ -24,8 +24,10 @@ SHAPES = [
     b"0A & <b> \"q\" 'x'\tf&g.txt", b"iExplicit info\tfake\t(NULL)\t0", b"7Search\t/target.txt", b"0Trailing fields\t/t.txt\t\t", b"9No selector at all\t\t\t",
     # characters that are line boundaries for str.splitlines() but not for a text file: one line stays one entry
     b"0Form\x0cfeed and \x0bvt\tf&g.txt", b"info with NEL \xc2\x85 and LS \xe2\x80\xa8 inside",
+    # URL: selectors whose scheme has no "//"
+    b"hMail us\tURL:mailto:admin@example.com", b"hNews\t/URL:news:comp.infosystems.gopher",
 ]
-PLACEMENTS = ["root", "d1", "d2", "file", "rootfile", "zip"]
+PLACEMENTS = ["root", "d1", "d2", "file", "rootfile", "zip", "dirnamed"]
 
 
 def reference(lines, dirsel: bytes):
@@ -81,6 +83,8 @@ LAYOUT = {
     "d2": ({b"d1": {b"d 2": dict(COMMON)}}, b"d1/d 2/gophermap", b"/d1/d 2", b"/d1/d 2"),
     "file": ({b"maps": dict(COMMON)}, b"maps/x.gophermap", b"/maps", b"/maps/x.gophermap"),
     "rootfile": (dict(COMMON), b"x.gophermap", b"", b"/x.gophermap"),
+    # a DIRECTORY whose own name ends in .gophermap, holding an ordinary gophermap
+    "dirnamed": ({b"old.gophermap": dict(COMMON)}, b"old.gophermap/gophermap", b"/old.gophermap", b"/old.gophermap"),
 }
 _worlds = {}
 
